@@ -57,6 +57,9 @@ structure Manifest where
   atype : String             -- what the code reads as artifact type: `artifactType` of a legacy
                              -- artifact manifest, `config.mediaType` of an image manifest
   layers : List Layer        -- `layers` (image manifest) / `blobs` (artifact manifest)
+  stray : List Layer         -- a member of the OTHER format next to it (`blobs` in an image manifest, `layers`
+                             -- in an artifact manifest): a polyglot; read only by a fetch through a descriptor
+                             -- that names the other manifest media type
   annos : List KV
   deriving DecidableEq, Repr
 
@@ -83,6 +86,7 @@ structure Op where
   atype : String             -- raw: artifactType / config.mediaType
   topType : String           -- raw image manifest: top-level `artifactType` field (the code never reads it)
   layers : List Layer        -- raw
+  stray : List Layer         -- raw image / artifact manifest: the list member of the OTHER format
   annos : List KV            -- push: annotations handed to PushSignature; raw: manifest annotations
   deriving DecidableEq, Repr, FromJson, ToJson
 
@@ -171,9 +175,9 @@ def ensureCreated (annos : List KV) : List KV :=
 def mkManifest (o : Op) : Manifest :=
   match o.kind with
   | .push => { id := o.id, mt := mtImage, size := o.msize, subject := o.subject, atype := notationType,
-               layers := [⟨o.mt, o.blob, o.bsize⟩], annos := ensureCreated o.annos }
+               layers := [⟨o.mt, o.blob, o.bsize⟩], stray := [], annos := ensureCreated o.annos }
   | _ => { id := o.id, mt := o.mt, size := o.msize, subject := o.subject, atype := o.atype,
-           layers := o.layers, annos := o.annos }
+           layers := o.layers, stray := o.stray, annos := o.annos }
 
 def blobSize (st : State) (b : Nat) : Option Nat := (st.blobs.find? (·.1 == b)).map (·.2)
 
@@ -236,6 +240,8 @@ def fetchLayers (st : State) (ls : List Layer) : FetchObs :=
     else refuse true true                                      -- missing blob / size mismatch: FetchAll fails
   | _ => refuse true false
 
+def isManifestType (mt : String) : Bool := mt == mtArtifact || mt == mtImage
+
 /-- `FetchSignatureBlob(d)` -/
 def fetchSig (st : State) (d : Desc) : FetchObs :=
   if d.mt != mtArtifact && d.mt != mtImage then refuse false false
@@ -244,7 +250,9 @@ def fetchSig (st : State) (d : Desc) : FetchObs :=
     | none => refuse true false                                -- FetchAll: not found
     | some m =>
       if m.size != d.size then refuse true false               -- FetchAll: size mismatch
-      else fetchLayers st (if d.mt == m.mt then m.layers else [])   -- `layers` vs `blobs` by descriptor media type
+      -- `layers` vs `blobs` by the DESCRIPTOR's media type: the manifest's own list when that is its format, the
+      -- stray list of the other format when the descriptor names the other manifest type, nothing otherwise
+      else fetchLayers st (if d.mt == m.mt then m.layers else if isManifestType m.mt then m.stray else [])
 
 def descOf (m : Manifest) : Desc := ⟨m.mt, m.id, m.size⟩
 
@@ -323,7 +331,6 @@ def creates (h : List Op) (o : Op) : Bool :=
   | .raw => true
   | .blob => false
 
-def isManifestType (mt : String) : Bool := mt == mtArtifact || mt == mtImage
 
 /-- media type of the manifest `o` stores -/
 def opMt (o : Op) : String := if o.kind == .push then mtImage else o.mt
